@@ -19,7 +19,7 @@ theorem shapes :
     Sticky.acceptParseOk = true ∧ Sticky.tokenHeaderHandlingOk = true ∧ Sticky.lostSkipsDispatch = true ∧
     StickyClient.sendsAccept = true ∧ StickyClient.sendsTokenIffHeld = true ∧
     StickyClient.captureOrder = ["set", "clear"] ∧ StickyClient.captureReadsOk = true ∧
-    StickyClient.capturingVerbs = ["post", "get", "options", "delete"] := by decide
+    StickyClient.capturingVerbs = ["post", "get", "options", "delete"] ∧ Sticky.sinkCloseOnHitOnly = false := by decide
 
 theorem emitSession_true : emitSession = true := by decide
 theorem emitClose_true : emitClose = true := by decide
@@ -65,9 +65,27 @@ theorem step_now (cfg : Cfg) (wk : Nat) (ident : Identity) (c : Nat) (W : World)
     split <;> rfl
   | use => rfl
   | noop => rfl
+  | reap at_ => rfl
+  | shutdown => rfl
+
+/-- removing registry entries keeps the script invariant, except for its "no stale token" half -/
+theorem JE_shrink (c : Nat) (base : Option Bytes) (ex : Prop) (W : World) (rs : RS) (r' : Reg) (cl : List Nat)
+    (hnex : ¬ ex) (hsub : ∀ x ∈ r'.entries, x ∈ W.reg.entries) (h : JE c base ex W rs) :
+    JE c base ex { W with reg := r', closedLog := cl } rs := by
+  have hl : ∀ x ∈ liveOf r' c, x ∈ liveOf W.reg c := fun x hx =>
+    mem_liveOf.mpr ⟨hsub x (mem_liveOf.mp hx).1, (mem_liveOf.mp hx).2⟩
+  unfold JE at h ⊢
+  cases hsc : rs.sc with
+  | none =>
+    simp only [hsc] at h ⊢
+    exact ⟨fun x hx => h.1 x (hl x hx), h.2⟩
+  | some p =>
+    obtain ⟨sid, lbl⟩ := p
+    simp only [hsc] at h ⊢
+    exact ⟨fun x hx => h.1 x (hl x hx), fun hE => (hnex hE).elim, h.2.2.1, h.2.2.2⟩
 
 theorem step_JE (cfg : Cfg) (wk : Nat) (ident : Identity) (c : Nat) (base : Option Bytes) (ex : Prop)
-    (W : World) (rs : RS) (a : Action) (hs : SealFits cfg W.env.now a) (h : JE c base ex W rs) :
+    (W : World) (rs : RS) (a : Action) (hs : SealFits cfg W.env.now a) (hapi : ex → a.isApi = true) (h : JE c base ex W rs) :
     JE c base ex (stepAction cfg wk ident c W rs a).1 (stepAction cfg wk ident c W rs a).2.1 := by
   cases a with
   | «open» l ttl =>
@@ -115,15 +133,26 @@ theorem step_JE (cfg : Cfg) (wk : Nat) (ident : Identity) (c : Nat) (base : Opti
       exact hx'.2 (h.1 x (mem_liveOf.mpr ⟨hx'.1, hx.2⟩))
   | use => exact h
   | noop => exact h
+  | reap at_ =>
+    -- the environment only removes entries; with `ex` this action is excluded
+    simp only [stepAction, stepActionP]
+    exact JE_shrink c base ex W rs _ _ (fun hE => by cases hapi hE) (fun x hx => by
+      simp only [Reg.drainExpired, List.mem_filter] at hx; exact hx.1) h
+  | shutdown =>
+    simp only [stepAction, stepActionP]
+    exact JE_shrink c base ex W rs _ _ (fun hE => by cases hapi hE) (fun x hx => by
+      simp only [Reg.shutdown] at hx; cases hx) h
 
 theorem run_JE (cfg : Cfg) (wk : Nat) (ident : Identity) (c : Nat) (base : Option Bytes) (ex : Prop) (swallow : Bool)
-    (script : List Action) : ∀ (W : World) (rs : RS), (∀ a ∈ script, SealFits cfg W.env.now a) → JE c base ex W rs →
+    (script : List Action) : (ex → ∀ a ∈ script, a.isApi = true) →
+      ∀ (W : World) (rs : RS), (∀ a ∈ script, SealFits cfg W.env.now a) → JE c base ex W rs →
       JE c base ex (runScript cfg wk ident c swallow W rs script).1 (runScript cfg wk ident c swallow W rs script).2.1 := by
   induction script with
-  | nil => intro W rs _ h; exact h
+  | nil => intro _ W rs _ h; exact h
   | cons a as ih =>
-    intro W rs hs h
-    have h1 := step_JE cfg wk ident c base ex W rs a (hs a (by simp)) h
+    intro hapi W rs hs h
+    have ih := ih (fun hE b hb => hapi hE b (by simp [hb]))
+    have h1 := step_JE cfg wk ident c base ex W rs a (hs a (by simp)) (fun hE => hapi hE a (by simp)) h
     have hn := step_now cfg wk ident c W rs a
     have hs' : ∀ b ∈ as, SealFits cfg (stepAction cfg wk ident c W rs a).1.env.now b := by
       intro b hb; rw [hn]; exact hs b (by simp [hb])
@@ -141,6 +170,7 @@ theorem run_JE (cfg : Cfg) (wk : Nat) (ident : Identity) (c : Nat) (base : Optio
     | closed _ => simpa using h2
     | used _ => simpa using h2
     | noop => simpa using h2
+    | env => simpa using h2
 
 /-- what `_capture` does with the two response headers -/
 theorem capture_eq {Wire : Type} (v : View Wire) (r : Resp Wire) :
@@ -274,7 +304,7 @@ theorem request_session {Wire : Type} (v : View Wire) (ident : Identity) (c : Na
 /-- one call through a view preserves "no orphan", and (under `ex`, given that the designated session is unexpired) "no stale token" -/
 theorem view_step {Wire : Type} [DecidableEq Wire] (C : Codec Wire) (cfg : Cfg) (wk : Nat) (W : World) (v : View Wire)
     (ident : Identity) (c : Nat) (script : List Action) (swallow : Bool) (ex : Prop)
-    (hseal : ∀ a ∈ script, SealFits cfg W.env.now a)
+    (hseal : ∀ a ∈ script, SealFits cfg W.env.now a) (hapi : ex → ∀ a ∈ script, a.isApi = true)
     (hexp : ex → ∀ e ∈ W.reg.entries, (∃ w, v.token = some w ∧ Designates C w e.sid) → expired e W.env.now = false)
     (hno : NoOrphan C W.reg c v) (hst : ex → NoStale C W.reg c v) :
     NoOrphan C (viewCall C cfg wk W v ident c script swallow).1.reg c (viewCall C cfg wk W v ident c script swallow).2.1 ∧
@@ -293,7 +323,7 @@ theorem view_step {Wire : Type} [DecidableEq Wire] (C : Codec Wire) (cfg : Cfg) 
       refine ⟨fun x hx => ?_, by simp⟩
       obtain ⟨w, hw, _⟩ := hno x hx
       rw [hvt] at hw; cases hw
-    have hJ := run_JE cfg wk ident c none ex swallow script W _ hseal h0
+    have hJ := run_JE cfg wk ident c none ex swallow script hapi W _ hseal h0
     generalize runScript cfg wk ident c swallow W { accept := acceptOpens (v.request ident c).accept } script = res at hJ
     obtain ⟨W₂, rs, log, err⟩ := res
     exact JE_final C c none ex W₂ rs v _ log hJ ⟨(fun _ => hvt), (fun sid h => by cases h)⟩
@@ -335,7 +365,7 @@ theorem view_step {Wire : Type} [DecidableEq Wire] (C : Codec Wire) (cfg : Cfg) 
         exact designates_fun hd' hdes
       · obtain ⟨x, hx, hd'⟩ := hst hE w hvt
         exact ⟨x, hx, designates_fun hd' hdes⟩
-    have hJ := run_JE cfg wk ident c (some e.sid) ex swallow script W _ hseal h0
+    have hJ := run_JE cfg wk ident c (some e.sid) ex swallow script hapi W _ hseal h0
     generalize runScript cfg wk ident c swallow W { sc := some (e.sid, e.state), accept := acceptOpens (v.request ident c).accept, lockHeld := some e.sid } script = res at hJ
     obtain ⟨W₂, rs, log, err⟩ := res
     exact JE_final C c (some e.sid) ex W₂ rs v _ log hJ ⟨(fun h => by cases h), (fun sid h => by cases h; exact ⟨w, hvt, hdes⟩)⟩
@@ -380,6 +410,12 @@ theorem step_OI (cfg : Cfg) (wk : Nat) (ident : Identity) (c : Nat) (R0 : Reg) (
       rw [Reg.close_draining]; exact hd
   | use => exact ⟨ha, hd, he⟩
   | noop => exact ⟨ha, hd, he⟩
+  | reap at_ =>
+    simp only [stepAction, stepActionP]
+    exact ⟨ha, hd, fun x hx => he x (by simp only [Reg.drainExpired, List.mem_filter] at hx; exact hx.1)⟩
+  | shutdown =>
+    simp only [stepAction, stepActionP]
+    exact ⟨ha, hd, fun x hx => by simp only [Reg.shutdown] at hx; cases hx⟩
 
 theorem run_OI (cfg : Cfg) (wk : Nat) (ident : Identity) (c : Nat) (R0 : Reg) (acc : Bool) (swallow : Bool) (script : List Action) :
     ∀ (W : World) (rs : RS), OI R0 acc W rs →
@@ -403,6 +439,7 @@ theorem run_OI (cfg : Cfg) (wk : Nat) (ident : Identity) (c : Nat) (R0 : Reg) (a
     | closed _ => simpa using h2
     | used _ => simpa using h2
     | noop => simpa using h2
+    | env => simpa using h2
 
 /-- the token half of `process_request` only ever removes entries, and never touches the drain flag -/
 theorem resolve_entries {Wire : Type} [DecidableEq Wire] (C : Codec Wire) (cfg : Cfg) (W : World) (rq : Req Wire) :
@@ -444,6 +481,8 @@ theorem run_draining_log (cfg : Cfg) (wk : Nat) (ident : Identity) (c : Nat) (sw
           rw [Reg.close_draining]; exact hd
       | use => exact ⟨hd, fun _ h => by cases h⟩
       | noop => exact ⟨hd, fun _ h => by cases h⟩
+      | reap at_ => exact ⟨hd, fun _ h => by cases h⟩
+      | shutdown => exact ⟨hd, fun _ h => by cases h⟩
     have h2 := ih (stepAction cfg wk ident c W rs a).1 (stepAction cfg wk ident c W rs a).2.1 hstep.1
     simp only [runScript]
     generalize stepAction cfg wk ident c W rs a = st at hstep h2
@@ -477,6 +516,11 @@ theorem run_draining_log (cfg : Cfg) (wk : Nat) (ident : Identity) (c : Nat) (sw
       rcases List.mem_cons.mp ho' with rfl | h
       · intro h; cases h
       · exact h2 o' h sid
+    | env =>
+      simp only at ho'
+      rcases List.mem_cons.mp ho' with rfl | h
+      · intro h; cases h
+      · exact h2 o' h sid
 
 /-- `serve` in terms of `resolve` and `runScript` -/
 theorem serve_entries {Wire : Type} [DecidableEq Wire] (C : Codec Wire) (cfg : Cfg) (wk : Nat) (W : World) (rq : Req Wire)
@@ -500,12 +544,60 @@ theorem serve_entries {Wire : Type} [DecidableEq Wire] (C : Codec Wire) (cfg : C
 /-- `C27_view`, stated inside `Aux` for use in the history proof -/
 theorem C27_view_aux {Wire : Type} [DecidableEq Wire] (C : Codec Wire) (cfg : Cfg) (wk : Nat) (W : World) (v : View Wire)
     (ident : Identity) (c : Nat) (script : List Action) (swallow : Bool)
-    (hseal : ∀ a ∈ script, SealFits cfg W.env.now a)
+    (hseal : ∀ a ∈ script, SealFits cfg W.env.now a) (hapi : ∀ a ∈ script, a.isApi = true)
     (hexp : ∀ e ∈ W.reg.entries, (∃ w, v.token = some w ∧ Designates C w e.sid) → expired e W.env.now = false)
     (hok : ViewOK C W.reg c v) :
     ViewOK C (viewCall C cfg wk W v ident c script swallow).1.reg c (viewCall C cfg wk W v ident c script swallow).2.1 := by
-  have h := view_step C cfg wk W v ident c script swallow True hseal (fun _ => hexp) hok.1 (fun _ => hok.2)
+  have h := view_step C cfg wk W v ident c script swallow True hseal (fun _ => hapi) (fun _ => hexp) hok.1 (fun _ => hok.2)
   exact ⟨h.1, h.2 trivial⟩
+
+/-! #### cleared on close -/
+
+def notOpen : Action → Bool
+  | .open _ _ => false
+  | _ => true
+
+/-- `ctx.close_session()` flags the response, whether or not the registry still had the entry -/
+theorem close_sets_closed (cfg : Cfg) (wk : Nat) (ident : Identity) (c : Nat) (W : World) (rs : RS) :
+    (stepAction cfg wk ident c W rs .close).2.1.closed = true := by
+  simp only [stepAction, stepActionP]
+  cases rs.sc with
+  | none => simp [shapes.2.2.1]
+  | some p => obtain ⟨sid, l⟩ := p; simp [shapes.2.2.1]
+
+theorem step_keeps_closed (cfg : Cfg) (wk : Nat) (ident : Identity) (c : Nat) (W : World) (rs : RS) (a : Action)
+    (ha : notOpen a = true) (h : rs.closed = true) : (stepAction cfg wk ident c W rs a).2.1.closed = true := by
+  cases a with
+  | «open» l ttl => cases ha
+  | close => exact close_sets_closed cfg wk ident c W rs
+  | use => exact h
+  | noop => exact h
+  | reap at_ => exact h
+  | shutdown => exact h
+
+theorem run_keeps_closed (cfg : Cfg) (wk : Nat) (ident : Identity) (c : Nat) (swallow : Bool) (script : List Action) :
+    (∀ a ∈ script, notOpen a = true) → ∀ (W : World) (rs : RS), rs.closed = true →
+      (runScript cfg wk ident c swallow W rs script).2.1.closed = true := by
+  induction script with
+  | nil => intro _ W rs h; exact h
+  | cons a as ih =>
+    intro hno W rs h
+    have h1 := step_keeps_closed cfg wk ident c W rs a (hno a (by simp)) h
+    have h2 := ih (fun b hb => hno b (by simp [hb])) (stepAction cfg wk ident c W rs a).1 (stepAction cfg wk ident c W rs a).2.1 h1
+    simp only [runScript]
+    generalize stepAction cfg wk ident c W rs a = st at h1 h2
+    obtain ⟨W', rs', o⟩ := st
+    cases o with
+    | failed e =>
+      simp only
+      cases swallow with
+      | true => simpa using h2
+      | false => simpa using h1
+    | opened _ => simpa using h2
+    | closed _ => simpa using h2
+    | used _ => simpa using h2
+    | noop => simpa using h2
+    | env => simpa using h2
 
 /-! #### histories of several views -/
 
@@ -518,7 +610,8 @@ theorem viewOK_congr {Wire : Type} (C : Codec Wire) (r r' : Reg) (c : Nat) (v : 
 /-- a call through view `c` keeps the registry-wide invariants and touches only sessions of `c` -/
 theorem viewCall_frame {Wire : Type} [DecidableEq Wire] (C : Codec Wire) (cfg : Cfg) (wk : Nat) (W : World) (v : View Wire)
     (ident : Identity) (c : Nat) (script : List Action) (swallow : Bool)
-    (hreg : RegInv W) (hst : NoStale C W.reg c v) (hb : W.env.sidCtr + script.length ≤ 256 ^ 12) :
+    (hreg : RegInv W) (hst : NoStale C W.reg c v) (hb : W.env.sidCtr + script.length ≤ 256 ^ 12)
+    (hapi : ∀ a ∈ script, a.isApi = true) :
     RegInv (viewCall C cfg wk W v ident c script swallow).1 ∧
     (∀ x ∈ W.reg.entries, x.owner ≠ c → x ∈ (viewCall C cfg wk W v ident c script swallow).1.reg.entries) ∧
     (∀ x ∈ (viewCall C cfg wk W v ident c script swallow).1.reg.entries, x ∈ W.reg.entries ∨ x.owner = c) := by
@@ -530,7 +623,7 @@ theorem viewCall_frame {Wire : Type} [DecidableEq Wire] (C : Codec Wire) (cfg : 
     simp only [hrc, hri]
     have h0 : FR c W.reg W { accept := acceptOpens (v.request ident c).accept } :=
       ⟨fun x hx _ => hx, fun x hx => Or.inl hx, fun sid l hs => by simp at hs⟩
-    have hJ := run_inv cfg wk ident c W.reg swallow script W _ hb hreg h0
+    have hJ := run_inv cfg wk ident c W.reg swallow script hapi W _ hb hreg h0
     generalize runScript cfg wk ident c swallow W { accept := acceptOpens (v.request ident c).accept } script = res at hJ
     obtain ⟨W₂, rs, log, err⟩ := res
     exact ⟨hJ.1, hJ.2.1, hJ.2.2.1⟩
@@ -552,7 +645,7 @@ theorem viewCall_frame {Wire : Type} [DecidableEq Wire] (C : Codec Wire) (cfg : 
       have hy' := mem_liveOf.mp hy
       have : x = y := hreg.1 x hx y hy'.1 (by rw [hxs, ← hs.1]; exact designates_fun hdes hyd)
       rw [this]; exact hy'.2
-    have hJ := run_inv cfg wk ident c W.reg swallow script W _ hb hreg h0
+    have hJ := run_inv cfg wk ident c W.reg swallow script hapi W _ hb hreg h0
     generalize runScript cfg wk ident c swallow W { sc := some (e.sid, e.state), accept := acceptOpens (v.request ident c).accept, lockHeld := some e.sid } script = res at hJ
     obtain ⟨W₂, rs, log, err⟩ := res
     exact ⟨hJ.1, hJ.2.1, hJ.2.2.1⟩
@@ -573,11 +666,11 @@ theorem step_HInv {Wire : Type} [DecidableEq Wire] (C : Codec Wire) (cfg : Cfg) 
   obtain ⟨hviews, hreg⟩ := hinv
   cases op with
   | call c ident script swallow =>
-    obtain ⟨hseal, hb⟩ := hok
+    obtain ⟨hseal, hb, hapi⟩ := hok
     have hexp : ∀ e ∈ s.W.reg.entries, (∃ w, (s.views c).token = some w ∧ Designates C w e.sid) → expired e s.W.env.now = false :=
       fun e he _ => hreg.2.2 e he
-    have hcaller := C27_view_aux C cfg wk s.W (s.views c) ident c script swallow hseal hexp (hviews c)
-    have hframe := viewCall_frame C cfg wk s.W (s.views c) ident c script swallow hreg (hviews c).2 hb
+    have hcaller := C27_view_aux C cfg wk s.W (s.views c) ident c script swallow hseal hapi hexp (hviews c)
+    have hframe := viewCall_frame C cfg wk s.W (s.views c) ident c script swallow hreg (hviews c).2 hb hapi
     simp only [Sys.step]
     refine ⟨fun c' => ?_, hframe.1⟩
     by_cases hc : c' = c
@@ -756,11 +849,11 @@ token is exactly the session the registry keeps live for that view: none if none
 provided the session the client's token designates had not expired when the request arrived. -/
 theorem C27_view {Wire : Type} [DecidableEq Wire] (C : Codec Wire) (cfg : Cfg) (wk : Nat) (W : World) (v : View Wire)
     (ident : Identity) (c : Nat) (script : List Action) (swallow : Bool)
-    (hseal : ∀ a ∈ script, SealFits cfg W.env.now a)
+    (hseal : ∀ a ∈ script, SealFits cfg W.env.now a) (hapi : ∀ a ∈ script, a.isApi = true)
     (hexp : ∀ e ∈ W.reg.entries, (∃ w, v.token = some w ∧ Designates C w e.sid) → expired e W.env.now = false)
     (hok : ViewOK C W.reg c v) :
     ViewOK C (viewCall C cfg wk W v ident c script swallow).1.reg c (viewCall C cfg wk W v ident c script swallow).2.1 :=
-  C27_view_aux C cfg wk W v ident c script swallow hseal hexp hok
+  C27_view_aux C cfg wk W v ident c script swallow hseal hapi hexp hok
 
 /-- **Never an orphan**, unconditionally (also when the client's token is stale or expired server-side): every live
 session of the view is the one the client's token designates. -/
@@ -768,7 +861,32 @@ theorem C27_no_orphan {Wire : Type} [DecidableEq Wire] (C : Codec Wire) (cfg : C
     (ident : Identity) (c : Nat) (script : List Action) (swallow : Bool)
     (hseal : ∀ a ∈ script, SealFits cfg W.env.now a) (hno : NoOrphan C W.reg c v) :
     NoOrphan C (viewCall C cfg wk W v ident c script swallow).1.reg c (viewCall C cfg wk W v ident c script swallow).2.1 :=
-  (view_step C cfg wk W v ident c script swallow False hseal (fun h => h.elim) hno (fun h => h.elim)).1
+  (view_step C cfg wk W v ident c script swallow False hseal (fun h => h.elim) (fun h => h.elim) hno (fun h => h.elim)).1
+
+/-- **Cleared on close**, whatever happens to the registry meanwhile.  Once the method has called `ctx.close_session()` and
+does not open a session afterwards, the response carries `VGI-Session-Close` and the client's view ends with no token —
+also when the session it closes was already gone (TTL reaper, `shutdown()`, another holder of the token ended it while
+the method was running), and whatever the rest of the method (`post`: anything but `open_session`, environment included). -/
+theorem C27_close_clears {Wire : Type} (C : Codec Wire) (cfg : Cfg) (wk : Nat) (ident : Identity) (c : Nat) (swallow : Bool)
+    (W : World) (rs : RS) (post : List Action) (v : View Wire) (o : Outcome) (log : List ActOut)
+    (hpost : ∀ a ∈ post, ∀ l ttl, a ≠ .open l ttl) :
+    let st := stepAction cfg wk ident c W rs .close
+    let fin := runScript cfg wk ident c swallow st.1 st.2.1 post
+    (capture v ⟨o, if emitSession then fin.2.1.mint.map C.enc else none, emitClose && fin.2.1.closed, log⟩).token = none := by
+  intro st fin
+  have hno : ∀ a ∈ post, notOpen a = true := by
+    intro a ha
+    cases a with
+    | «open» l ttl => exact absurd rfl (hpost _ ha l ttl)
+    | close => rfl
+    | use => rfl
+    | noop => rfl
+    | reap at_ => rfl
+    | shutdown => rfl
+  have hc : fin.2.1.closed = true :=
+    run_keeps_closed cfg wk ident c swallow post hno st.1 st.2.1 (close_sets_closed cfg wk ident c W rs)
+  rw [capture_eq]
+  simp [emitClose_true, hc]
 
 /-- **All view sequences.** Start from an empty registry and empty views; let any number of views call any scripts
 (aborting or swallowing), hand their tokens over to new views (`detach()` + `with_session_token(token=…)`), and let the
